@@ -29,7 +29,7 @@ THEOREMS = [
     "c16_entry_cancel_no_orphan",
     "c16_entry_gap_orphans",
     "c16_returned_value_was_written_by_child", "c16_dead_child_never_answers",
-    "c16_eof_is_not_exit", "c16_reuse_sound", "c16_exit_once_leaks_on_reuse",
+    "c16_eof_is_not_exit", "c16_reuse_sound", "c16_exit_once_leaks_on_reuse", "c16_failed_handshake_cleans_up",
 ]
 RULE = (
     "real children {well-behaved, exits at step k (k=0..4), ignores SIGTERM after signalling readiness, never reads stdin, "
@@ -38,10 +38,15 @@ RULE = (
     "exit path {normal, exception in body, outer cancellation, timeout around the context} x moment {before first message, "
     "request in flight, after response(s)} x API {stdio_client, StdioTransport, StdioClient}; the same with a BACKLOG of 40 "
     "queued outgoing 16 kB messages (10x pipe + write buffer) at the moment of the exit for the children that do not read; "
-    "REUSE: 2 (3) sequential sessions on ONE StdioClient / StdioTransport object (and consecutive stdio_client contexts), "
+    "HARDENING: what the body raises (empty / no args / 'cancel scope' / 'json object must be str' / format-hostile / 100 kB "
+    "text), chatty children (blank / junk / unsolicited / duplicated lines), falsy results and a falsy-looking request id, "
+    "children reacting to SIGTERM 0.5/0.9/1.1/1.5 s late, backlogs at 99/100 (queue) 101/150 (body blocked in send) and "
+    "3/4/5/8 x 16 KiB (pipe), env given / stderr suppressed / stderr noise / hostile argv, 2-3 nested contexts, the "
+    "per-request stream API with a request still registered, and the stdio_client_with_initialize wrapper incl. a "
+    "handshake that fails on entry; REUSE: 2 (3) sequential sessions on ONE StdioClient / StdioTransport object (and consecutive stdio_client contexts), "
     "observed after each session; cancellation / timeout WHILE THE CONTEXT IS BEING ENTERED: the deadline of a scope around the whole async-with scanned "
     "0..160 ms in 8 ms steps (thorough 0..200 ms in 2 ms steps) for a slow-starting and a normal child, both cancelled paths; "
-    "quick: 33 directed scenarios + 4 seeded ones + 42 entry deadlines + 3 unstartable commands; thorough: the full "
+    "quick: 50 directed scenarios + 6 seeded ones + 42 entry deadlines + 3 unstartable commands; thorough: the full "
     "products; observed: /proc state of the child after the exit, wall-clock exit duration against 2 s + 3 s slack (an exit "
     "still running 5.5 s after it began is released by killing the child and reported), /proc/self/fd count before/after, "
     "outcome of every awaited request; non-trivial = a scenario in which the context was entered or its entry was cut"
@@ -86,6 +91,50 @@ def reuse_product(apis=("StdioClient", "StdioTransport", "stdio_client"), sessio
                 for p in H.PATHS:
                     for m in H.MOMENTS:
                         out.append(_case(b, p, m, api=api, sessions=k, **v))
+    return out
+
+
+def hardening_product():
+    """the generic miss classes (falsy / magic / format-hostile values, limits, rarely taken branches, unusual but
+    valid traffic, other ways into and out of the context) applied to the shutdown scenarios"""
+    out = []
+    for t in list(H.EXC_TEXTS) + ["noargs"]:                     # what the body raises: text the wrappers inspect / format
+        for m in ("before", "after"):
+            out.append(_case("well", "exception", m, exc_text=t))
+        out.append(_case("never_reads", "exception", "inflight", exc_text=t, api="StdioTransport"))
+    for b in ("well", "ignore_term"):                            # lines that carry nothing, unsolicited and duplicated answers
+        for p in H.PATHS:
+            out.append(_case(b, p, "after", nreq=2, chatty=True))
+    for i in range(len(H.FALSY_RESULTS)):                        # falsy results, empty payloads, a falsy-looking id
+        out.append(_case("well", "normal", "after", falsy_result=i, req_id="0" if i % 2 else None))
+    out.append(_case("well", "timeout", "after", empty_x=True, req_id="0"))
+    for d in (0.5, 0.9, 1.1, 1.5):                               # around the first grace period
+        for p in ("normal", "cancel"):
+            out.append(_case("well", p, "before", term_delay=d))
+    for n in (99, 100):                                          # the 100-slot outgoing queue, the 64 KiB pipe
+        out.append(_case("never_reads", "normal", "before", backlog=n))
+        out.append(_case("well", "exception", "before", backlog=n, backlog_bytes=1))
+    for n in (101, 150):
+        for p in ("cancel", "timeout"):
+            out.append(_case("never_reads", p, "before", backlog=n))
+            out.append(_case("stops_reading", p, "after", backlog=n, backlog_bytes=1))
+    for n in (3, 4, 5, 8):
+        out.append(_case("never_reads", "normal", "before", backlog=n, backlog_bytes=16384))
+    for e in ("empty", "quiet", "quiet2"):                       # env given / stderr suppressed / stderr noise / hostile argv
+        for p in ("normal", "cancel"):
+            out.append(_case("well", p, "after", env=e, stderr=True, hostile_args=(e == "quiet")))
+    for k in (2, 3):                                             # contexts inside one another
+        for b in ("well", "never_reads", "ignore_term"):
+            for p in H.PATHS:
+                out.append(_case(b, p, "before", nested=k))
+    for p in H.PATHS:                                            # the per-request stream API, a request still registered
+        out.append(_case("well", p, "inflight", api="StdioClient", legacy=True))
+        out.append(_case("exit_at", p, "inflight", api="StdioClient", legacy=True, k=1))
+    for b, v in (("well", {}), ("ignore_term", {}), ("slow_start", {}), ("never_reads", {}), ("flood", {}), ("close_stdin", {}),
+                 ("close_stdout", {"linger": "sleep"})):         # the wrapper that shakes hands on entry
+        for p in H.PATHS:
+            for m in ("before", "after"):
+                out.append(_case(b, p, m, api="with_initialize", **v))
     return out
 
 
@@ -142,6 +191,24 @@ DIRECTED = [
     _case("exit_at", "timeout", "after", k=1, api="StdioClient", sessions=2),
     _case("never_reads", "timeout", "inflight", api="StdioTransport", sessions=2),
     _case("well", "normal", "before", api="stdio_client", sessions=2),
+    # hardening sweep (sampled; the thorough tier runs hardening_product() in full)
+    _case("well", "exception", "after", exc_text="cancel-scope"),
+    _case("well", "exception", "before", exc_text="hostile"),
+    _case("never_reads", "exception", "inflight", exc_text="json", api="StdioTransport"),
+    _case("well", "cancel", "after", nreq=2, chatty=True),
+    _case("well", "normal", "after", falsy_result=1, req_id="0"),
+    _case("well", "normal", "after", falsy_result=2),
+    _case("well", "normal", "before", term_delay=0.9),
+    _case("well", "cancel", "before", term_delay=1.1),
+    _case("never_reads", "normal", "before", backlog=100),
+    _case("never_reads", "timeout", "before", backlog=150),
+    _case("never_reads", "normal", "before", backlog=4, backlog_bytes=16384),
+    _case("well", "normal", "after", env="quiet", stderr=True, hostile_args=True),
+    _case("well", "timeout", "before", nested=2),
+    _case("well", "exception", "inflight", api="StdioClient", legacy=True),
+    _case("well", "normal", "after", api="with_initialize"),
+    _case("never_reads", "normal", "before", api="with_initialize"),
+    _case("flood", "cancel", "before", api="with_initialize"),
 ]
 BAD = [{"bad": b, "api": a} for b in ("missing", "not-executable", "directory", "bare-name") for a in H.APIS]
 
@@ -177,15 +244,17 @@ class Scenarios(Suite):
     def cases(self, ctx, budget):
         rng = ctx.sub_rng("c16", budget)
         if budget == "quick":
-            full = product(H.APIS) + backlog_product() + reuse_product()
-            out = [dict(c) for c in DIRECTED] + [dict(c) for c in rng.sample(full, 4)]
+            full = product(H.APIS) + backlog_product() + reuse_product() + hardening_product()
+            out = [dict(c) for c in DIRECTED] + [dict(c) for c in rng.sample(full, 6)]
             out += entry_scan(8, 160)
             out += [BAD[0], BAD[4], BAD[8]]
         elif budget == "thorough":
             out = (product(H.APIS) + backlog_product(H.APIS) + reuse_product() + reuse_product(("StdioClient",), (3,))
+                   + hardening_product()
                    + entry_scan(2, 200) + entry_scan(8, 160, H.APIS[1:]) + BAD)
         else:  # search
             out = (product(["stdio_client"], nreq=1, junk=False) + backlog_product() + reuse_product(("StdioClient", "StdioTransport"))
+                   + hardening_product()
                    + entry_scan(4, 160) + BAD[:4])
         for i, c in enumerate(out):
             if "bad" not in c:
@@ -201,9 +270,14 @@ class Scenarios(Suite):
             return {"m": "shutdown", "bad": True}
         d = {"m": "shutdown", "behaviour": case["behaviour"], "path": case["path"], "moment": case["moment"],
              "nreq": case.get("nreq", 1), "backlog": case.get("backlog", 0) * H.BACKLOG_BYTES}
-        for key in ("k", "linger", "close_after", "sessions"):
+        for key in ("k", "linger", "close_after", "sessions", "api"):
             if key in case:
                 d[key] = case[key]
+        if "term_delay" in case and case["behaviour"] == "well":
+            d["behaviour"] = "slow_term"
+            d["term_delay_ms"] = int(case["term_delay"] * 1000)
+        if "backlog_bytes" in case:
+            d["backlog"] = case.get("backlog", 0) * case["backlog_bytes"]
         return d
 
     def model_obs(self, out, case):
@@ -259,7 +333,19 @@ class Scenarios(Suite):
                         {"fd_delta": 0})
             return None
         if not o["entered"]:
-            return None  # cannot happen with a startable command; nothing the property says about it
+            if case.get("api") != "with_initialize":
+                return None  # cannot happen with a startable command; nothing the property says about it
+            # the handshake failed inside the context: entering raised; what is left behind?
+            what += ": the handshake got no answer and entering raised " + str(o.get("enter_exc"))
+            if o["hang"]:
+                return (f"unbounded/failed-handshake", f"{what}, but only after more than {H.HANG_AFTER_MS} ms", None)
+            if o["state"] != "gone":
+                return (f"child-left-{o['state']}/failed-handshake", f"{what}; the child is {o['state']} afterwards "
+                        f"({o['fd_delta']} descriptors still open)", {"state": "gone", "fd_delta": 0})
+            if o["fd_delta"] is not None and o["fd_delta"] > 0:
+                return (f"fd-leak/failed-handshake", f"{what}; {o['fd_delta']} additional descriptor(s) open afterwards",
+                        {"fd_delta": 0})
+            return None
         if o["hang"] or o["duration_ms"] is None or o["duration_ms"] > BOUND_MS:
             return (f"unbounded/{case['path']}{reuse}", f"{what}: leaving the context took "
                     f"{'more than %d' % H.HANG_AFTER_MS if o['hang'] else o['duration_ms']} ms"
@@ -278,7 +364,9 @@ class Scenarios(Suite):
             if r["outcome"] != "returned":
                 continue
             nreq = case.get("nreq", 1) if case["moment"] == "after" else 1
-            if r.get("held") or not H.answers(case, (j - 1) % nreq + 1) or r.get("payload") != {"echo": r["x"]}:
+            wrote = r["expect"] if "expect" in r else {"echo": r["x"]}
+            if r.get("held") or not H.answers(case, (j - 1) % nreq + 1) or r.get("payload") != wrote \
+                    or type(r.get("payload")) is not type(wrote):
                 return ("fabricated-result", f"{what}: request {j} returned {r.get('payload')!r}, which the child never wrote",
                         {"outcome": "timeout or error"})
         return None
@@ -291,6 +379,11 @@ class Scenarios(Suite):
             return f"{b}/{case['path']}/entry-{'cut' if not o['entered'] else 'body'}/{case.get('api')}"
         if case["behaviour"] == "close_stdout":
             b += "-" + case.get("linger", "eof") + ("@%d" % case["close_after"] if case.get("close_after") else "")
+        flags = "".join("+" + k for k in ("chatty", "falsy_result", "term_delay", "env", "stderr", "hostile_args", "nested", "legacy",
+                                          "exc_text", "req_id", "empty_x", "backlog_bytes") if case.get(k) is not None)
+        if case.get("backlog", 0) > 95:
+            flags += "+queue-full"
+        b += flags
         return (f"{b}/{case['path']}/{case['moment']}{'+backlog' if case.get('backlog') else ''}/{case.get('api')}"
                 f"{'x%d' % case['sessions'] if case.get('sessions', 1) > 1 else ''}")
 
@@ -308,6 +401,11 @@ class Scenarios(Suite):
             if case["behaviour"] != "well":
                 yield dict(case, behaviour="well")
             return
+        for k in ("chatty", "falsy_result", "env", "stderr", "hostile_args", "legacy", "exc_text", "req_id", "empty_x", "backlog_bytes"):
+            if k in case:
+                yield {a: b for a, b in case.items() if a != k}
+        if case.get("nested", 1) > 2:
+            yield dict(case, nested=2)
         if case.get("sessions", 1) > 2:
             yield dict(case, sessions=2)
         if case.get("close_after"):
